@@ -125,15 +125,106 @@ func ruleSTRUCTCOPY(c *Ctx, pkgs ...string) {
 							if fa, ok := r.(*ssa.FieldAddr); ok && fa.Referrers() != nil {
 								for _, r2 := range *fa.Referrers() {
 									if s2, ok := r2.(*ssa.Store); ok && s2.Addr == ssa.Value(fa) {
-										// not a copy of the source's own field
-										if u, ok := s2.Val.(*ssa.UnOp); ok && u.Op == token.MUL {
-											if sfa, ok := u.X.(*ssa.FieldAddr); ok && sfa.X == ld.X && sfa.Field == fa.Field {
+										// not a copy of the source's own field, and not an append onto the
+										// (still shared) field itself
+										shared := func(v ssa.Value) bool {
+											if u, ok := v.(*ssa.UnOp); ok && u.Op == token.MUL {
+												if sfa, ok := u.X.(*ssa.FieldAddr); ok && sfa.Field == fa.Field && (sfa.X == ld.X || sfa.X == ssa.Value(al)) {
+													return true
+												}
+											}
+											return false
+										}
+										if shared(s2.Val) {
+											continue
+										}
+										if ac, ok := s2.Val.(*ssa.Call); ok {
+											if bi, ok := ac.Call.Value.(*ssa.Builtin); ok && bi.Name() == "append" && len(ac.Call.Args) > 0 && shared(ac.Call.Args[0]) {
 												continue
 											}
 										}
 										fresh[fa.Field] = append(fresh[fa.Field], s2)
 									}
 								}
+							}
+						}
+					}
+					// in-place writes of a slice field of the copy in this very function: append onto
+					// the field, copy() into it, element stores, or handing it to a callee that writes
+					// its slice parameter in place
+					for _, b2 := range f.Blocks {
+						for _, in2 := range b2.Instrs {
+							var fld = -1
+							var what string
+							fieldLoad := func(v ssa.Value) (int, bool) {
+								for d := 0; d < 4; d++ {
+									switch x := v.(type) {
+									case *ssa.UnOp:
+										if x.Op == token.MUL {
+											if fa, ok := x.X.(*ssa.FieldAddr); ok && fa.X == ssa.Value(al) {
+												return fa.Field, true
+											}
+										}
+										return 0, false
+									case *ssa.Slice:
+										v = x.X
+									default:
+										return 0, false
+									}
+								}
+								return 0, false
+							}
+							switch y := in2.(type) {
+							case *ssa.Call:
+								if bi, ok := y.Call.Value.(*ssa.Builtin); ok && (bi.Name() == "append" || bi.Name() == "copy") && len(y.Call.Args) > 0 {
+									if fl, ok := fieldLoad(y.Call.Args[0]); ok {
+										fld, what = fl, bi.Name()
+									}
+								} else if g := y.Call.StaticCallee(); g != nil {
+									for ai, a := range y.Call.Args {
+										if fl, ok := fieldLoad(a); ok && writesSliceParam(g, ai) {
+											fld, what = fl, g.Name()
+										}
+									}
+								}
+							case *ssa.Store:
+								if ia, ok := y.Addr.(*ssa.IndexAddr); ok {
+									if fl, ok := fieldLoad(ia.X); ok {
+										fld, what = fl, "element store"
+									}
+								}
+							}
+							if fld < 0 {
+								continue
+							}
+							if _, ok := stt.Field(fld).Type().Underlying().(*types.Slice); !ok {
+								continue
+							}
+							if !(st.Block() == b2 || st.Block().Dominates(b2)) {
+								continue
+							}
+							n++
+							key := ordKey(ord, fmt.Sprintf("%s:%s.%s<-%s", ssaFuncKey(f), al.Comment, stt.Field(fld).Name(), what))
+							ok2 := false
+							for _, s2 := range fresh[fld] {
+								if s2.Block() == st.Block() || s2.Block().Dominates(b2) {
+									ok2 = true
+								}
+								if s2.Block() == b2 {
+									for _, x := range b2.Instrs {
+										if x == ssa.Instruction(s2) {
+											ok2 = true
+										}
+										if x == in2 {
+											break
+										}
+									}
+								}
+							}
+							if ok2 {
+								c.Ok(rule, key, in2.Pos(), "%s.%s has its own backing array before it is written in place (%s)", al.Comment, stt.Field(fld).Name(), what)
+							} else {
+								c.Bad(rule, key, in2.Pos(), "%s is a value copy of %s; its slice field %s is written in place (%s) while it still shares the original's backing array: the original (and every other holder of that slice) changes too", al.Comment, normalizePhi(vpath(ld.X)), stt.Field(fld).Name(), what)
 							}
 						}
 					}
@@ -230,4 +321,56 @@ func ruleSTRUCTCOPY(c *Ctx, pkgs ...string) {
 	if n < 1 {
 		c.add(rule, "count:", token.NoPos, CountDropped, true, "no struct copy whose slice field is written in place through a callee found (computeStates' clone of the final state confirmed by hand)")
 	}
+}
+
+// writesSliceParam: does g write the elements of its slice parameter pi in place (element
+// stores, copy into it, sort/append onto it)?
+func writesSliceParam(g *ssa.Function, pi int) bool {
+	if g == nil || g.Blocks == nil || pi >= len(g.Params) {
+		return false
+	}
+	p := g.Params[pi]
+	if _, ok := p.Type().Underlying().(*types.Slice); !ok {
+		return false
+	}
+	derived := func(v ssa.Value) bool {
+		for d := 0; d < 4; d++ {
+			switch x := v.(type) {
+			case *ssa.Slice:
+				v = x.X
+			default:
+				return v == ssa.Value(p)
+			}
+		}
+		return false
+	}
+	for _, b := range g.Blocks {
+		for _, ins := range b.Instrs {
+			switch x := ins.(type) {
+			case *ssa.Store:
+				if ia, ok := x.Addr.(*ssa.IndexAddr); ok && derived(ia.X) {
+					return true
+				}
+			case *ssa.Call:
+				if bi, ok := x.Call.Value.(*ssa.Builtin); ok && (bi.Name() == "append" || bi.Name() == "copy") && len(x.Call.Args) > 0 && derived(x.Call.Args[0]) {
+					return true
+				}
+				if cal := x.Call.StaticCallee(); cal != nil && cal.Pkg != nil && (cal.Pkg.Pkg.Path() == "sort" || cal.Pkg.Pkg.Path() == "slices") {
+					for _, a := range x.Call.Args {
+						v := a
+						if mi, ok := v.(*ssa.MakeInterface); ok {
+							v = mi.X
+						}
+						if ct, ok := v.(*ssa.ChangeType); ok {
+							v = ct.X
+						}
+						if derived(v) && (cal.Name() == "Strings" || cal.Name() == "Ints" || cal.Name() == "Sort" || cal.Name() == "Slice" || cal.Name() == "SortFunc" || cal.Name() == "Reverse") {
+							return true
+						}
+					}
+				}
+			}
+		}
+	}
+	return false
 }
